@@ -645,10 +645,15 @@ func (x *Exec) resolveModifies(st *State, spec *FuncSpec, env *Env) modLocs {
 				sfail("contents() of non-map %s", typeName(m.Typ))
 			}
 			n := st.region(m)
-			ml.precise["mapdom:"+n] = append(ml.precise["mapdom:"+n], m.T())
-			ml.precise["mapcard:"+n] = append(ml.precise["mapcard:"+n], m.T())
+			ref := m.T()
+			if mi.Cond != nil {
+				// outside its condition the item denotes the nil map (reference 0), which holds nothing
+				ref = Ite(oenv.evalBool(mi.Cond), ref, TZero)
+			}
+			ml.precise["mapdom:"+n] = append(ml.precise["mapdom:"+n], ref)
+			ml.precise["mapcard:"+n] = append(ml.precise["mapcard:"+n], ref)
 			for _, c := range comps(mt.Elem()) {
-				ml.precise["mapval:"+n+c.Suffix] = append(ml.precise["mapval:"+n+c.Suffix], m.T())
+				ml.precise["mapval:"+n+c.Suffix] = append(ml.precise["mapval:"+n+c.Suffix], ref)
 				ml.sorts["mapval:"+n+c.Suffix] = ArrSort(ArrSort(c.Sort))
 				x.noteLeaf("mapval:"+n+c.Suffix, c)
 			}
